@@ -7,6 +7,9 @@ R-ELFBOUND  every subscript / dereference of a pointer derived from Elf_Data::d_
             a branch condition that mentions the buffer's d_size (or a count derived from
             sh_size); a division by sh_entsize needs a non-zero test.
 R-INASSERT  no assertion on the result of a libelf accessor / on section contents.
+R-LOOPPROG  (termination) no loop reachable from the readers relies, for the progress of its condition, on a callee
+            that may return without writing its out-parameter while the result of the call is discarded
+            (rules/loopprog_rule.py).
 """
 import json
 import os
@@ -229,7 +232,7 @@ def run(ctx):
     ctx.clause = ("in the ELF symbol readers: results of libelf accessors that fail on corrupted sections are checked "
                   "before use, reads through pointers into section data are preceded by a size test, divisions by "
                   "sh_entsize are guarded, and no assertion depends on file contents")
-    ctx.rules = ["R-ELFNULL", "R-ELFBOUND", "R-ELFBOUND/ENTSIZE", "R-INASSERT", "R-ELFALLOC"]
+    ctx.rules = ["R-ELFNULL", "R-ELFBOUND", "R-ELFBOUND/ENTSIZE", "R-INASSERT", "R-ELFALLOC", "R-LOOPPROG"]
     with open(os.path.join(TABLES, "c34_tables.json")) as fh:
         T = json.load(fh)
     P = ctx.program(None)
@@ -251,6 +254,15 @@ def run(ctx):
     na = check_elfalloc(ctx, P, funcs)
     ctx.note("R-ELFALLOC: %d allocation(s) sized from a section header field in the ELF readers (0 expected today; the "
              "seeded variant C34-containers-reserved-from-sh-size is the positive example of the thorough tier)" % na)
+    # termination: loops of the readers, and of everything they can call, whose progress hangs on an unchecked callee
+    from rules import loopprog_rule
+    reach = P.reach([f.u for f in funcs])
+    lfuncs = [P.funcs[u] for u in reach if u in P.funcs and not P.funcs[u].dep and P.funcs[u].q.startswith("abigail::")]
+    nl, nd = loopprog_rule.check(ctx, P, lfuncs)
+    ctx.floor("R-LOOPPROG", "loops reachable from the ELF readers", nl, 300)
+    ctx.note("R-LOOPPROG: %d loops inspected in %d functions reachable from the ELF readers, %d depend on a callee that may "
+             "decline (0 expected on the repaired tree; the revert of the trim_leading_string repair is the positive example)"
+             % (nl, len(lfuncs), nd))
     acc = set(T["accessors"])
     ns, ni = inassert_rule.run(ctx, P, funcs, "C34", producers=lambda d: d["n"] in producers | set(T["assert_producers"]),
                                accessors=lambda d: d["n"] in acc, undecided=T["undecided"])
